@@ -446,15 +446,22 @@ func RangeFromEnv() (lo, hi uint64) {
 func (s *Shard) Watchdog(limit time.Duration, maxHeap uint64) {
 	go func() {
 		var last uint64
-		var since = time.Now()
+		since, cpuSince := time.Now(), processCPU()
 		for {
 			time.Sleep(500 * time.Millisecond)
 			cur := atomic.LoadUint64(&s.ticks)
 			if cur != last {
-				last, since = cur, time.Now()
-			} else if cur != 0 && time.Since(since) > limit {
-				fmt.Fprintf(os.Stderr, "WATCHDOG: case in flight made no progress for %v\n", limit)
-				os.Exit(3)
+				last, since, cpuSince = cur, time.Now(), processCPU()
+			} else if cur != 0 {
+				// Wall-clock time alone says nothing on a busy machine (a case that needs three seconds
+				// of CPU can take half a minute there). A case is stalled when this process has burnt
+				// CPU well beyond the limit on it (a loop, a blow-up), or when nothing has moved for
+				// very long (a deadlock burns nothing).
+				wall, cpu := time.Since(since), processCPU()-cpuSince
+				if cpu > 3*limit || wall > 12*limit {
+					fmt.Fprintf(os.Stderr, "WATCHDOG: case in flight made no progress for %v (%v of CPU time)\n", wall.Round(time.Second), cpu.Round(time.Second))
+					os.Exit(3)
+				}
 			}
 			var ms runtime.MemStats
 			runtime.ReadMemStats(&ms)
@@ -464,6 +471,15 @@ func (s *Shard) Watchdog(limit time.Duration, maxHeap uint64) {
 			}
 		}
 	}()
+}
+
+// processCPU is the CPU time (user + system) this process has used so far.
+func processCPU() time.Duration {
+	var ru syscall.Rusage
+	if err := syscall.Getrusage(syscall.RUSAGE_SELF, &ru); err != nil {
+		return 0
+	}
+	return time.Duration(ru.Utime.Nano() + ru.Stime.Nano())
 }
 
 // Tick tells the watchdog that a new case started.
